@@ -293,6 +293,61 @@ Proof.
 Qed.
 Print Assumptions C13_ignored_dependency_never_started_parallel.
 
+(* IGNORE WINS OVER THE OPTIONS OF THE RUN, --always-execute included.  [ignored_by d rt]: the tasks the
+   mark reaches in the table of the run: marked in the DB `ignore` left (the named tasks and their
+   sub-tasks: C13_ignore_exact), or with a task_dep (for a group: its sub-tasks; implicit dependencies
+   through targets) or calc_dep on a task the mark reaches.  In EVERY serial run on that DB -- any
+   selection (tasks named on the command line), --continue or not, --always-execute or not, any
+   set-iteration oracle, any fuel -- such a task is never executed and every final report it gets is
+   skip_ignore (never success / failure / up-to-date); and a task that has one of them as a setup-task
+   is never executed.  (Runner.select_task tests node.ignored_deps / status_is_ignore BEFORE
+   always_execute; in Proofs/OutcomeSpec.v rule f_ignore does not mention [always].) *)
+Theorem C13_ignore_wins_over_always : forall (md5 : N -> N) v wake_rank calc_rank c fs d rt cont always fuel sel k,
+  ignored_by d rt k ->
+  let tr := fst (next_run md5 v wake_rank calc_rank c fs d rt cont always fuel sel) in
+  ~ In (Runner.EExecute k) tr /\
+  (forall e, In e tr -> RunnerP.is_final_ev k e = true -> e = Runner.ESkipIgnore k) /\
+  (forall t, setup_ignored_by d rt t -> ~ In (Runner.EExecute t) tr).
+Proof. exact next_run_ignore_wins. Qed.
+Print Assumptions C13_ignore_wins_over_always.
+
+(* the same right after the command: every task `ignore` wrote a line for, and everything that depends on one *)
+Theorem C13_ignore_then_wins_over_always : forall (md5 : N -> N) v wake_rank calc_rank c fs tb args d rt cont always fuel sel x ct,
+  let out := ignore_cmd tb args d in
+  co_res out = COk -> In x (map fst (co_log out)) -> lookup rt x = Some ct ->
+  forall k, clos_refl_trans name (fun a b => exists ca, lookup rt a = Some ca /\ In b (c_task_dep ca ++ c_calc_dep ca)) k x ->
+  let tr := fst (next_run md5 v wake_rank calc_rank c fs (co_db out) rt cont always fuel sel) in
+  ~ In (Runner.EExecute k) tr /\ (forall e, In e tr -> RunnerP.is_final_ev k e = true -> e = Runner.ESkipIgnore k).
+Proof.
+  intros md5 v wake_rank calc_rank c fs tb args d rt cont always fuel sel x ct out Hok Hx Hl k Hk.
+  assert (Hm : ignored_by (co_db out) rt x).
+  { apply (ib_mark _ _ x ct Hl). pose proof (ignore_exact tb args d) as H. cbv zeta in H. fold out in H. rewrite Hok in H.
+    destruct H as (_ & B & _). unfold status_is_ignore, getrec. rewrite (B x Hx). reflexivity. }
+  assert (Hi : ignored_by (co_db out) rt k).
+  { clear Hx Hl. apply clos_rt_rt1n in Hk. induction Hk as [|a b z (ca & Ha & Hb) _ IH]; [exact Hm|].
+    exact (ib_dep _ _ a ca b Ha Hb (IH Hm)). }
+  destruct (next_run_ignore_wins md5 v wake_rank calc_rank c fs (co_db out) rt cont always fuel sel k Hi) as (A & B & _).
+  exact (conj A B).
+Qed.
+Print Assumptions C13_ignore_then_wins_over_always.
+
+(* PARTIAL (parallel runners).  Proved, for MRunner / MThreadRunner under any worker count and
+   schedule, any options: every final report of a task the mark reaches is skip_ignore, and no task with
+   a task_dep / calc_dep / setup on such a task is ever started in a worker.
+   Missing: "no worker starts a task that is itself MARKED in the DB" as a statement about the parallel log
+   (the serial proof, CommandsP.IgnRun, is an invariant of the serial loop; it was not redone for the
+   job-queue loop).  Since every report of such a task is skip_ignore and a started task is reported
+   success / failure when its result is processed, only a run cut short could differ; checked on the
+   real thread runner by harness/c13.py (runs with -n 2 -P thread, with and without -a). *)
+Theorem C13_ignore_wins_over_always_parallel_partial :
+  forall (md5 : N -> N) v wake_rank calc_rank c fs d rt cont always proc fuel nprocs sched sel k,
+  ignored_by d rt k ->
+  let log := fst (Parallel.run_parallel (run_table md5 v c fs d rt) wake_rank calc_rank cont always proc fuel nprocs sched sel) in
+  (forall e, In (Parallel.PE e) log -> RunnerP.is_final_ev k e = true -> e = Runner.ESkipIgnore k) /\
+  (forall t ct w, lookup rt t = Some ct -> In k (c_task_dep ct ++ c_calc_dep ct ++ c_setup ct) -> ~ In (Parallel.PStart t w) log).
+Proof. exact next_run_parallel_ignore_wins. Qed.
+Print Assumptions C13_ignore_wins_over_always_parallel_partial.
+
 (* ---- reset-dep ---- *)
 
 (* on every DB of the kind FS-fresh histories reach (db_ok: [sn] is every version each file ever had,
@@ -418,3 +473,23 @@ Example C13_next_run_nonvacuous :
   let tr := fst (next_run (fun x => x) current (fun _ _ => 0%N) (fun _ => 0%N) MD5 fs0 d tb0 true false 400 [0; 1; 4; 5]%N) in
   map (outcome_z tr) [0;1;2;3;4;5]%N = [17; 4; 4; 17; 4; 4].
 Proof. vm_compute. reflexivity. Qed.
+
+(* `ignore b` (3), then `run -a` of every task: b is reported ignored (4) and so is a (0), which
+   depends on it; the others are executed (17 = executed + success), c (4) although it is up-to-date --
+   without -a c is skipped as up-to-date (2), b and a are reported ignored all the same.
+   `run -a a` alone: b and a are reported ignored, nothing is executed. *)
+Example C13_always_nonvacuous :
+  let d := co_db (ignore_cmd tb0 [3%N] (remove_list db0 [])) in
+  let fs := fs_of [(0%N, {| mtime := 1; size := 4; content := 0%N |}); (1%N, {| mtime := 1; size := 4; content := 0%N |})] in
+  let d1 := upd d 4%N (Some {| r_deps := Some []; r_checker := Some MD5; r_saved := saved_of []; r_values := [(0%N, Some 1%N)];
+                               r_result := None; r_ignore := false |}) in
+  let run always sel := fst (next_run (fun x => x) current (fun _ _ => 0%N) (fun _ => 0%N) MD5 fs d1 tb0 true always 400 sel) in
+  ignored_by d1 tb0 0%N /\
+  map (outcome_z (run true [0; 1; 4; 5]%N)) [0;1;2;3;4;5]%N = [4; 17; 17; 4; 17; 17] /\
+  map (outcome_z (run false [0; 1; 4; 5]%N)) [0;1;2;3;4;5]%N = [4; 17; 17; 4; 2; 17] /\
+  map (outcome_z (run true [0%N])) [0;1;2;3;4;5]%N = [4; 0; 0; 4; 0; 0].
+Proof.
+  split; [|vm_compute; repeat split].
+  apply (ib_dep _ _ 0%N (mk [3%N] [] None [0%N] [] []) 3%N); [reflexivity|left; reflexivity|].
+  apply (ib_mark _ _ 3%N (mk [] [] None [0%N] [] [])); reflexivity.
+Qed.
